@@ -290,6 +290,8 @@ class TypedNode(Node):
                 pass
             if data_id is not None and data_id != source_node._data_id:
                 raise UniqueConstraintError(f"data_id conflict: {source_node}")
+            if deep and (self is source_node or self.is_descendant_of(source_node)):
+                raise ValueError(f"Cannot copy {source_node} into its own branch")
 
         if before is True:
             before = 0  # prepend
